@@ -1302,15 +1302,24 @@ def exhaustive_cases():
 
 
 def make_arr_case(rng):
-  """Trees with ndarray nodes (1-D and 2-D) and COPYING operations whose paths index into the arrays: existing,
-  negative and out-of-range indices, a tuple-of-ints key on a 2-D array, the array as view root.  The Lean
-  model skips these operations (arrays are opaque there); the oracle judges them on the real objects."""
+  """Trees with ndarray nodes (1-D, 2-D, views sharing a buffer with another array of the case) and operations
+  whose paths index into the arrays — copying AND in-place sets, updates, reads: existing, negative and
+  out-of-range indices, `key == len(arr)` (AssertionError), str keys, SELF/SKIP below an array, too deep
+  paths, the array as view root; values: ints, other arrays (same shape, broadcastable, not broadcastable,
+  a view of the SAME buffer), flat / nested int lists and tuples, str, None, dict, NullMap.  Both sides
+  report object identity, buffer identity, window and elements of every array.  A tuple-of-ints key on a 2-D
+  array is outside the model: oracle only."""
   g = Gen(rng)
-  a1 = g.add({'t': 'arr', 'v': rng.choice([[1, 2, 3], [10, 20], [7]])})
-  a2 = g.add({'t': 'arr2', 'v': rng.choice([[[0, 1, 2], [3, 4, 5]], [[1, 2], [3, 4], [5, 6]]])})
+  a1 = g.add({'t': 'arr', 'v': rng.choice([[1, 2, 3], [10, 20], [7], [0]])})
+  a2 = g.add({'t': 'arr2', 'v': rng.choice([[[0, 1, 2], [3, 4, 5]], [[1, 2], [3, 4], [5, 6]], [[8], [9]]])})
   a3 = g.add({'t': 'arr', 'v': [4, 5, 6, 7]})
+  n2, m2 = len(g.cells[a2]['v']), len(g.cells[a2]['v'][0])
+  # views: a row of a2 (shares a2's buffer), a window of a3, a 2-D reshaped window of a3
+  v_row = g.add({'t': 'view', 'of': a2, 'off': m2 * rng.randrange(n2), 'shape': [m2]})
+  v_win = g.add({'t': 'view', 'of': a3, 'off': rng.choice([0, 1, 2]), 'shape': [2]})
+  v_22 = g.add({'t': 'view', 'of': a3, 'off': 0, 'shape': [2, 2]})
   leaf = g.add({'t': 'int', 'v': 3})
-  shape = rng.randrange(5)
+  shape = rng.randrange(7)
   if shape == 0:      # {'model': {'scores': a1}, 'rows': [a2], 'b': 3}
     inner = g.add({'t': 'dict', 'es': [[{'s': 'scores'}, a1]]})
     rows = g.add({'t': 'list', 'rs': [a2]})
@@ -1321,49 +1330,95 @@ def make_arr_case(rng):
     root = g.add({'t': 'list', 'rs': [a1, tup, a3]})
     arrs = [([{'x': 0}], a1), ([{'x': 1}, {'x': 0}], a2), ([{'x': 2}], a3)]
   elif shape == 2:    # the array is the root of the view
-    root = rng.choice([a1, a2])
+    root = rng.choice([a1, a2, v_22, v_row])
     arrs = [([], root)]
   elif shape == 3:    # the same array object at two places
     root = g.add({'t': 'dict', 'es': [[{'s': 'a'}, a1], [{'s': 'b'}, a1], [{'i': 0}, a2]]})
     arrs = [([{'s': 'a'}], a1), ([{'s': 'b'}], a1), ([{'i': 0}], a2)]
+  elif shape == 4:    # an array and a view of its buffer in the same tree
+    root = g.add({'t': 'dict', 'es': [[{'s': 'a'}, a2], [{'s': 'row'}, v_row], [{'s': 'n'}, leaf]]})
+    arrs = [([{'s': 'a'}], a2), ([{'s': 'row'}], v_row)]
+  elif shape == 5:    # two overlapping views of a3 (a3 itself outside the tree)
+    root = g.add({'t': 'list', 'rs': [v_win, v_22, a1]})
+    arrs = [([{'x': 0}], v_win), ([{'x': 1}], v_22), ([{'x': 2}], a1)]
   else:               # ({'a': a3},)
     d = g.add({'t': 'dict', 'es': [[{'s': 'a'}, a3], [{'s': 'n'}, leaf]]})
     root = g.add({'t': 'tuple', 'rs': [d]})
     arrs = [([{'x': 0}, {'s': 'a'}], a3)]
-  vals = [g.add({'t': 'int', 'v': v}) for v in (99, -7, 0)]
-  other = [g.add({'t': 'str', 'v': 'x'}), g.add({'t': 'list', 'rs': [vals[0]]}), g.add({'t': 'none'})]
+  ints = [g.add({'t': 'int', 'v': v}) for v in (99, -7, 0)]
+  i7, i8 = g.add({'t': 'int', 'v': 7}), g.add({'t': 'int', 'v': 8})
+  avals = [g.add({'t': 'arr', 'v': [7, 8, 9]}), g.add({'t': 'arr', 'v': [7, 8]}), g.add({'t': 'arr', 'v': [5]}),
+           g.add({'t': 'arr2', 'v': [[7, 8, 9]]}), g.add({'t': 'arr2', 'v': [[7], [8]]}), g.add({'t': 'arr2', 'v': [[1, 2], [3, 4]]}),
+           v_row, v_win, a1]
+  lvals = [g.add({'t': 'list', 'rs': [i7, i8]}), g.add({'t': 'tuple', 'rs': [i7, i8, i7]}), g.add({'t': 'list', 'rs': [i7]}),
+           g.add({'t': 'list', 'rs': []})]
+  lvals.append(g.add({'t': 'list', 'rs': [lvals[0], lvals[0]]}))          # nested, rectangular
+  lvals.append(g.add({'t': 'list', 'rs': [i7, lvals[2]]}))               # ragged
+  other = [g.add({'t': 'str', 'v': 'x'}), g.add({'t': 'none'}), g.add({'t': 'dict', 'es': [[{'s': 'k'}, i7]]}),
+           g.add({'t': 'null'}), g.add({'t': 'list', 'rs': [g.add({'t': 'str', 'v': 'x'})]})]
 
-  def into(pre, cell):
+  def shape_of(cell):
     c = g.cells[cell]
     if c['t'] == 'arr':
-      n = len(c['v'])
-      tail = rng.choice([[{'x': rng.randrange(n)}], [{'x': -1}], [{'i': rng.randrange(n)}], [{'x': n}], [{'x': -n - 1}],
-                         [{'x': 0}, {'x': 0}], [{'s': 'a'}]] if rng.random() < 0.35 else [[{'x': rng.randrange(n)}], [{'x': -1}]])
+      return [len(c['v'])]
+    if c['t'] == 'arr2':
+      return [len(c['v']), len(c['v'][0])]
+    return list(c['shape'])
+
+  def into(pre, cell):
+    sh = shape_of(cell)
+    n = sh[0]
+    if len(sh) == 1:
+      ok = [[{'x': rng.randrange(n)}], [{'x': -1}], [{'i': rng.randrange(n)}]]
+      odd = [[{'x': n}], [{'x': -n - 1}], [{'x': n + 1}], [{'x': 0}, {'x': 0}], [{'s': 'a'}], [{'x': 0}, 'SELF'],
+             [{'x': 0}, 'SKIP'], ['SELF'], [{'x': 0}, 'SELF', {'s': 'q'}]]
     else:
-      n, m = len(c['v']), len(c['v'][0])
+      m = sh[1]
       i, j = rng.randrange(n), rng.randrange(m)
-      tail = rng.choice([[{'x': i}, {'x': j}], [{'x': i}, {'x': -1}], [{'x': -1}, {'x': j}], [{'t': [i, j]}],
-                         [{'x': i}], [{'x': n}, {'x': 0}], [{'x': i}, {'x': m}]])
-    return pre + tail
+      ok = [[{'x': i}, {'x': j}], [{'x': i}, {'x': -1}], [{'x': -1}, {'x': j}], [{'x': i}], [{'i': i}, {'i': j}]]
+      odd = [[{'t': [i, j]}], [{'x': n}, {'x': 0}], [{'x': n}], [{'x': i}, {'x': m}], [{'x': i}, {'x': m + 1}], [{'x': i}, {'s': 'a'}],
+             [{'x': i}, {'x': j}, {'x': 0}], [{'x': i}, 'SELF'], [{'x': i}, 'SKIP'], [{'x': i}, {'x': j}, 'SELF'], [{'x': -n - 1}],
+             [{'x': i}, 'SKIP', {'x': 0}]]
+    tail = rng.choice(odd) if rng.random() < 0.3 else rng.choice(ok)
+    return pre + copy.deepcopy(tail)
+
+  def value():
+    r = rng.random()
+    if r < 0.45:
+      return rng.choice(ints)
+    if r < 0.70:
+      return rng.choice(avals)
+    if r < 0.85:
+      return rng.choice(lvals)
+    return rng.choice(other)
 
   ops = []
+  cur = root
   for _ in range(rng.randrange(1, 5)):
     pre, cell = rng.choice(arrs)
     p = into(pre, cell)
     k = rng.random()
-    v = rng.choice(vals) if rng.random() < 0.8 else rng.choice(other)
-    if k < 0.55:
-      ops.append({'op': 'set', 'root': root, 'keys': {'path': p}, 'value': v, 'in_place': False})
+    v = value()
+    tgt = cur if rng.random() < 0.5 else root
+    if k < 0.40:
+      ops.append({'op': 'set', 'root': tgt, 'keys': {'path': p}, 'value': v, 'in_place': False})
+      cur = {'res': len(ops) - 1}
+    elif k < 0.55:
+      # in place, on the input tree: values that cannot create a cycle (ints, arrays, flat lists of ints)
+      ops.append({'op': 'set', 'root': root, 'keys': {'path': p}, 'value': rng.choice(ints + avals + lvals[:4]), 'in_place': True})
     elif k < 0.65:
       pre2, cell2 = rng.choice(arrs)
-      ops.append({'op': 'update', 'root': root, 'pairs': [[p, v], [into(pre2, cell2), rng.choice(vals)]], 'asdict': False})
+      ops.append({'op': 'update', 'root': tgt, 'pairs': [[p, v], [into(pre2, cell2), rng.choice(ints)]], 'asdict': False})
+      cur = {'res': len(ops) - 1}
     elif k < 0.8:
-      ops.append({'op': rng.choice(['get', 'getd']), 'root': root, 'keys': {'path': p}})
-    elif k < 0.9:
+      ops.append({'op': rng.choice(['get', 'getd']), 'root': tgt, 'keys': {'path': p}})
+    elif k < 0.88:
       pre2, cell2 = rng.choice(arrs)
-      ops.append({'op': 'get', 'root': root, 'keys': {'multi': [p, into(pre2, cell2)]}})
+      ops.append({'op': 'get', 'root': tgt, 'keys': {'multi': [p, into(pre2, cell2)]}})
+    elif k < 0.94:
+      ops.append({'op': 'items', 'root': tgt})
     else:
-      ops.append({'op': 'items', 'root': root})
+      ops.append({'op': 'apply', 'root': tgt, 'fn': rng.choice(['inc', 'wrap', 'id', 'const'])})
   return {'strict': False, 'heap': g.cells, 'root': root, 'ops': ops}
 
 
